@@ -12,9 +12,12 @@ import (
 	"fmt"
 	"os"
 	"path/filepath"
+	"runtime"
 	"runtime/debug"
+	"sync"
 	"sync/atomic"
 	"testing"
+	"time"
 
 	logging "github.com/ipfs/go-log/v2"
 
@@ -40,8 +43,18 @@ func TestMain(m *testing.M) {
 			os.Stderr = dn
 		}
 	}
+	// raft.SnapshotSave / CleanupRaft / OfflineState / LastStateRaw never close
+	// the snapshot reader they open (latestSnapshot); the descriptors are only
+	// released by the os.File finalizer. Force collections so that long runs
+	// do not hit the descriptor limit (observation recorded in FINDINGS.md).
+	go func() {
+		for range time.Tick(500 * time.Millisecond) {
+			runtime.GC()
+		}
+	}()
 	ev.Main(func() int {
 		code := m.Run()
+		dumpTiming()
 		if scratchMade != "" {
 			os.RemoveAll(scratchMade)
 		}
@@ -50,11 +63,14 @@ func TestMain(m *testing.M) {
 }
 
 var scratchMade string
+var scratchMu sync.Mutex
 var scratchSeq int64
 
 // scratch returns a fresh private directory under $VERIF_SCRATCH (or a temp
 // dir under /var/tmp for manual runs).
 func scratch(t testing.TB, name string) string {
+	scratchMu.Lock()
+	defer scratchMu.Unlock()
 	base := os.Getenv("VERIF_SCRATCH")
 	if base == "" {
 		if scratchMade == "" {
